@@ -1030,7 +1030,17 @@ class RefPeer:
         if hasattr(self, '_gex_group'):
             del self._gex_group
 
-        self.send(byte(MSG_NEWKEYS))
+        if getattr(self, 'hold_newkeys', False):
+            # the script decides when this side's NEWKEYS leaves (a peer is
+            # free to take its time; until then this side stays silent)
+            self.newkeys_held = True
+        else:
+            self.send(byte(MSG_NEWKEYS))
+
+    def release_newkeys(self) -> None:
+        if getattr(self, 'newkeys_held', False):
+            self.newkeys_held = False
+            self.send(byte(MSG_NEWKEYS))
 
     def _activate_send(self) -> None:
         neg = self.negotiated
